@@ -134,6 +134,10 @@ pub enum Op {
     },
     /// creates `$TMPDIR/<rel>` on the real filesystem
     Touch { rel: String },
+    /// the shell closes its standard input (`exec <&-`) and runs on: whatever of the script it
+    /// had not read yet is never read - for the parent the script pipe now has no reader
+    /// (POLLERR / EPIPE) although the process is alive
+    CloseStdin,
 }
 
 #[derive(Clone, Debug, PartialEq, Eq, Serialize, Deserialize)]
